@@ -531,29 +531,38 @@ Ref ref_parse(const std::string &raw)
 // of the shape language  2HEX "-" 32HEX "-" 16HEX "-" 2HEX [ "-" any* ]; capped.
 unsigned shape_distance(const std::string &s)
 {
-  const size_t P = 55, cap = 9;
-  if (s.size() + 3 < P)
+  // A banded computation (|i - j| <= 3) is exact for every distance <= 3, which is all that the
+  // "within 2 edits" rule needs; anything farther away is reported as `cap`.
+  const size_t P = 55, W = 3;
+  const unsigned cap = 9;
+  if (s.size() + W < P)
     return cap;
-  size_t m = std::min(s.size(), P + 4);
-  auto match = [](size_t j, unsigned char ch) {
-    bool dash = j == 2 || j == 35 || j == 52;
-    return dash ? ch == '-' : hexval(ch) >= 0;
-  };
-  std::vector<unsigned> prev(m + 1), cur(m + 1);
+  size_t m = std::min(s.size(), P + W);
+  static const unsigned char kDash[56] = {0, 0, 1, 0, 0, 0, 0, 0, 0, 0, 0, 0, 0, 0, 0, 0, 0, 0, 0, 0, 0, 0, 0, 0, 0, 0, 0, 0,
+                                          0, 0, 0, 0, 0, 0, 0, 1, 0, 0, 0, 0, 0, 0, 0, 0, 0, 0, 0, 0, 0, 0, 0, 0, 1, 0, 0, 0};
+  unsigned prev[P + W + 2], cur[P + W + 2];
   for (size_t i = 0; i <= m; ++i)
-    prev[i] = static_cast<unsigned>(i);
+    prev[i] = i <= W ? static_cast<unsigned>(i) : cap;
   for (size_t j = 1; j <= P; ++j)
   {
-    cur[0] = static_cast<unsigned>(j);
-    for (size_t i = 1; i <= m; ++i)
+    size_t lo = j > W ? j - W : 0, hi = std::min(m, j + W);
+    for (size_t i = 0; i <= m; ++i)
+      cur[i] = cap;
+    if (lo == 0)
+      cur[0] = static_cast<unsigned>(j);
+    for (size_t i = std::max<size_t>(lo, 1); i <= hi; ++i)
     {
-      unsigned sub = prev[i - 1] + (match(j - 1, static_cast<unsigned char>(s[i - 1])) ? 0 : 1);
-      cur[i]       = std::min({sub, prev[i] + 1, cur[i - 1] + 1});
+      unsigned char ch = static_cast<unsigned char>(s[i - 1]);
+      bool ok          = kDash[j - 1] ? ch == '-' : hexval(ch) >= 0;
+      unsigned best    = prev[i - 1] + (ok ? 0u : 1u);
+      best             = std::min(best, prev[i] + 1);
+      best             = std::min(best, cur[i - 1] + 1);
+      cur[i]           = std::min(best, cap);
     }
-    prev.swap(cur);
+    std::memcpy(prev, cur, sizeof(unsigned) * (m + 1));
   }
-  unsigned best = static_cast<unsigned>(cap);
-  for (size_t i = 0; i <= m; ++i)
+  unsigned best = cap;
+  for (size_t i = P > W ? P - W : 0; i <= m; ++i)
   {
     unsigned tail = (i == s.size() || s[i] == '-') ? 0 : 1;
     best          = std::min(best, prev[i] + tail);
@@ -965,7 +974,7 @@ struct GenState
 GenState gen_extract_state(vh::Reader &rd)
 {
   GenState g;
-  switch (rd.weighted({35, 30, 7, 6, 14, 8}))
+  switch (rd.weighted({38, 32, 3, 2, 16, 9}))
   {
     case 0:
       break;
